@@ -60,7 +60,18 @@ def check_value(case):
     cls = _cls(t)
     try:
         obj = cls.from_micheline_value(readable)
+        if case.get("legacy_first"):
+            # the big_map key-hash layout is asked first on the same object; the canonical layout afterwards must not change
+            leg = obj.pack(legacy=True)
+            if leg != rv.pack(t, v, legacy=True):
+                raise Violation("pack(legacy=True) of %s : %s = %s, reference %s" % (readable, _ts(t), leg.hex(),
+                                                                                  rv.pack(t, v, legacy=True).hex()), case,
+                                "pack-legacy-bytes:" + _blame(t))
         got = obj.pack()
+        if obj.pack() != got:
+            raise Violation("pack() of one object gives two different results", case, "pack-unstable")
+    except Violation:
+        raise
     except Exception as e:
         raise Violation("pack() raised %r for %s : %s" % (e, readable, _ts(t)), case, "pack-raise:" + _blame(t))
     if got != want:
@@ -231,7 +242,7 @@ def _types(depth):
 def value_cases(draw, depth):
     t = draw(_types(depth))
     v = draw(gt.values(t))
-    return {"mode": "value", "t": t, "v": rv.to_micheline(t, v)}
+    return {"mode": "value", "t": t, "v": rv.to_micheline(t, v), "legacy_first": draw(st.integers(0, 2)) == 0}
 
 
 @st.composite
